@@ -9,7 +9,7 @@ What stays abstract in the generated definitions (parameters / type parameters):
   * `VSet` — the `visitedSet` interface, with its *mutating* method
     `VSet_CheckAndVisit : VSet → BitVec 64 → Bool × VSet` (answer, new state);
   * `D` — `float32`, any type with a decidable `<` (Go's `a > b` is translated as `b < a`, exact for IEEE
-    values, NaN included; the C03 model is stated for the same class of `D`, no order axioms);
+    values, NaN included; the C03 model is stated for the same class of `D`, no order laws are assumed);
   * `ds.distFn : VPoint → D` is a field of the generated structure;
   * `cap(ds.items)` is the ghost field `items_cap` (an `append` that fits keeps it, one that does not fit
     sets it to the abstract `growCap oldCap newLen`).
